@@ -189,6 +189,26 @@ def r19c(ctx, rep, cr, cg):
         dec = A.calls_to(f, 'tensor_blob::gc::decrement_chunk_refs')
         dels = A.calls_to(f, DEL)
         meta_del = [c for c in dels if c.args[1][0] != 'k' and any('_blob:meta:' in x for x in lib.value_sig(f, defs, c.args[1]))]
+        # `chunks.iter().try_for_each(|c| decrement_chunk_refs(store, c))?`: the per-entry decrement lives in a closure handed to an
+        # iterator adaptor over the chunk list
+        closure_dec = None
+        if not dec:
+            for h in A.with_closures(cr.fns, f.name):
+                if h.name != f.name and A.calls_to(h, 'tensor_blob::gc::decrement_chunk_refs'):
+                    for c in A.calls(f):
+                        if re.search(r'Iterator::(try_for_each|for_each|try_fold)$', c.generic) and any(
+                                lib._closure_of(cr.fns, f, defs, a) is h for a in c.args[1:]):
+                            sl0 = A.backward_slice(f, [c.args[0]], defs)
+                            if any(x.strip('"') == '_chunks' for x in sl0.consts) or any('_chunks' in x for x in sl0.consts):
+                                closure_dec = c
+        if closure_dec is not None and meta_del:
+            rep.holds('R19c', f, 'decrement per chunk entry', 'through %s over the chunk list' % closure_dec.generic.split('::')[-1])
+            gp = [c for c in A.calls_to(f, ('re', r'get_pointers$')) if any('_chunks' in x for a in c.args for x in lib.value_sig(f, defs, a))]
+            if gp and meta_del[0].bb not in A.reachable(f, [0], cut_blocks={c.bb for c in gp}):
+                rep.holds('R19c', f, 'metadata delete last', 'after the chunk list was walked and decremented')
+            else:
+                rep.violation('R19c', f, 'meta-delete-order', f.loc(meta_del[0].line), 'the artifact metadata can be deleted without first walking its chunk list')
+            return
         if not dec or not meta_del:
             rep.violation('R19c', f, 'shape', f.loc(), 'anchor-missing: delete_artifact no longer decrements (%d) / deletes metadata (%d)' % (len(dec), len(meta_del)))
         else:
